@@ -1,6 +1,7 @@
 package props
 
 import (
+	"fmt"
 	"go/ast"
 	"go/token"
 	"go/types"
@@ -247,8 +248,125 @@ func c11(c *an.Ctx) {
 		}
 		o.Site(acs[0])
 		ac := an.CallOf(acs[0])
-		if an.Expr(ac.Args[0]) != edges || !strings.HasSuffix(an.Expr(ac.Args[1]), ".Before") || !strings.HasSuffix(an.Expr(ac.Args[2]), ".After") {
-			o.FailAt(acs[0], "applyCursorsToAllEdges must be called as (c.Edges, args.Before, args.After); found (%s, %s, %s)", an.Expr(ac.Args[0]), an.Expr(ac.Args[1]), an.Expr(ac.Args[2]))
+		// Roles are inferred from applyCursorsToAllEdges itself, not from parameter or result
+		// positions: the "after" cursor is the one whose index becomes the low bound of a cut,
+		// the "before" cursor the one whose index becomes the high bound; each boolean result is
+		// tied to the cursor under whose non-nil test it can become true.
+		callee := c.NeedFunc(sbp, "applyCursorsToAllEdges")
+		role := map[int]string{} // parameter index -> "after" / "before"
+		for k, pa := range callee.Params {
+			if _, isPtr := pa.Type().Underlying().(*types.Pointer); !isPtr {
+				continue
+			}
+			for _, call := range an.Calls(callee, an.Mod(sbp, "", "getCursorIndex")) {
+				ld, ok := an.CallOf(call).Args[1].(*ssa.UnOp)
+				if !ok || ld.X != ssa.Value(pa) {
+					continue
+				}
+				idx := call.(ssa.Value)
+				an.Instrs(callee, func(i ssa.Instruction) {
+					sl, ok := i.(*ssa.Slice)
+					if !ok {
+						return
+					}
+					uses := func(v ssa.Value) bool {
+						if v == nil {
+							return false
+						}
+						if v == idx {
+							return true
+						}
+						if bo, ok := v.(*ssa.BinOp); ok {
+							return bo.X == idx || bo.Y == idx
+						}
+						return false
+					}
+					if uses(sl.Low) {
+						role[k] = "after"
+					}
+					if uses(sl.High) {
+						role[k] = "before"
+					}
+				})
+			}
+		}
+		paramOf := map[string]int{}
+		for k, r := range role {
+			paramOf[r] = k
+		}
+		_, okA := paramOf["after"]
+		_, okB := paramOf["before"]
+		an.Need(okA && okB, "after / before cursor parameters of applyCursorsToAllEdges")
+		// boolean results tied to a cursor parameter
+		resultOf := map[string]int{} // "elemsBefore" (tied to the after cursor) / "elemsAfter" (tied to the before cursor)
+		for _, e := range an.Exits(callee, false) {
+			ret, ok := e.(*ssa.Return)
+			if !ok {
+				continue
+			}
+			for r := range ret.Results {
+				v := an.ResultAt(ret, r)
+				if bt, ok := v.Type().Underlying().(*types.Basic); !ok || bt.Kind() != types.Bool {
+					continue
+				}
+				tied := map[string]bool{}
+				var walk func(v ssa.Value, at *ssa.BasicBlock, seen map[ssa.Value]bool)
+				walk = func(v ssa.Value, at *ssa.BasicBlock, seen map[ssa.Value]bool) {
+					if seen[v] {
+						return
+					}
+					seen[v] = true
+					if ph, ok := v.(*ssa.Phi); ok {
+						for k, ev := range ph.Edges {
+							walk(ev, ph.Block().Preds[k], seen)
+						}
+						return
+					}
+					if cst, ok := v.(*ssa.Const); ok && cst.Value != nil && cst.Value.ExactString() == "false" {
+						return
+					}
+					blocks := []*ssa.BasicBlock{at}
+					if in, ok := v.(ssa.Instruction); ok {
+						blocks = append(blocks, in.Block())
+					}
+					for _, b := range blocks {
+						for _, g := range append(an.GuardsOf(b), an.Guard{}) {
+							if g.Cond == nil {
+								continue
+							}
+							bo, ok := g.Cond.(*ssa.BinOp)
+							if !ok || !isConstNil(bo.Y) {
+								continue
+							}
+							nonNil := (bo.Op == token.NEQ) == g.Polarity
+							for rl, k := range paramOf {
+								if bo.X == ssa.Value(callee.Params[k]) && nonNil {
+									tied[rl] = true
+								}
+							}
+						}
+					}
+				}
+				walk(v, e.Block(), map[ssa.Value]bool{})
+				switch {
+				case tied["after"] && !tied["before"]:
+					resultOf["elemsBefore"] = r
+				case tied["before"] && !tied["after"]:
+					resultOf["elemsAfter"] = r
+				}
+			}
+		}
+		_, okEB := resultOf["elemsBefore"]
+		_, okEA := resultOf["elemsAfter"]
+		an.Need(okEB && okEA, "the two boolean results of applyCursorsToAllEdges")
+		edgesArg := -1
+		for k, pa := range callee.Params {
+			if _, isSl := pa.Type().Underlying().(*types.Slice); isSl {
+				edgesArg = k
+			}
+		}
+		if edgesArg < 0 || an.Expr(ac.Args[edgesArg]) != edges || !strings.HasSuffix(an.Expr(ac.Args[paramOf["before"]]), ".Before") || !strings.HasSuffix(an.Expr(ac.Args[paramOf["after"]]), ".After") {
+			o.FailAt(acs[0], "applyCursorsToAllEdges must be given c.Edges, args.Before as its before cursor and args.After as its after cursor; found %s / before: %s / after: %s", an.Expr(ac.Args[0]), an.Expr(ac.Args[paramOf["before"]]), an.Expr(ac.Args[paramOf["after"]]))
 		}
 		// seeds
 		seedOK := map[string]bool{}
@@ -262,14 +380,14 @@ func c11(c *an.Ctx) {
 				if s == "true" {
 					continue
 				}
-				want1, want2 := ".Before != nil)", "#1"
+				want1, want2 := ".Before != nil)", fmt.Sprintf("#%d", resultOf["elemsAfter"])
 				if f == "HasPrevPage" {
-					want1, want2 = ".After != nil)", "#2"
+					want1, want2 = ".After != nil)", fmt.Sprintf("#%d", resultOf["elemsBefore"])
 				}
 				if strings.Contains(s, want1) && strings.HasSuffix(strings.TrimSuffix(s, ")"), want2) && strings.Contains(s, " && ") {
 					seedOK[f] = true
 				} else {
-					o.FailAt(r.Instr, "%s is seeded with %s; expected (args.%s != nil && %s of applyCursorsToAllEdges)", f, an.Short(s, 80), map[string]string{"HasNextPage": "Before", "HasPrevPage": "After"}[f], map[string]string{"HasNextPage": "elemsAfter (#1)", "HasPrevPage": "elemsBefore (#2)"}[f])
+					o.FailAt(r.Instr, "%s is seeded with %s; expected (args.%s != nil && %s of applyCursorsToAllEdges)", f, an.Short(s, 80), map[string]string{"HasNextPage": "Before", "HasPrevPage": "After"}[f], map[string]string{"HasNextPage": "elemsAfter (" + want2 + ")", "HasPrevPage": "elemsBefore (" + want2 + ")"}[f])
 				}
 			}
 		}
